@@ -16,6 +16,11 @@ from harness.gen import T, coq_pv, coq_sty, coq_senv
 from harness.vlib import coq_str, coq_z
 
 
+# per-shard budget of the vm_compute correspondence: generous on purpose (a shard takes seconds on an idle machine; hitting the limit on a
+# loaded one would be a false alarm)
+CORR_TIMEOUT = 3600
+
+
 def subvalues(d, out=None, depth=0):
     out = [] if out is None else out
     out.append(d)
@@ -438,7 +443,7 @@ def run(ctx: vlib.Ctx, name: str, n_schemas: int, per_schema: int, depth=3, fore
     if not br.ok:
         return cases, None, "model does not build: " + (br.error or "")
     files = emit(cases)
-    res = vlib.coq_eval_many([(f"{name}_{i}", txt) for i, txt in enumerate(files)], timeout=600, jobs=8)
+    res = vlib.coq_eval_many([(f"{name}_{i}", txt) for i, txt in enumerate(files)], timeout=CORR_TIMEOUT, jobs=8)
     bad = []
     shard = 150
     for n, (ok, out) in enumerate(res):
@@ -448,4 +453,492 @@ def run(ctx: vlib.Ctx, name: str, n_schemas: int, per_schema: int, depth=3, fore
         if idx is None:
             return cases, None, "unparsable coq output: " + out[-1500:]
         bad.extend(n * shard + i for i in idx)
+    return cases, bad, ""
+
+
+# ---------------------------------------------------------------------------
+# the as_dict form of a NamedTuple class at the top of a codec (coq/theories/TyNtDict.v)
+# ---------------------------------------------------------------------------
+
+ND_HEADER = """Inductive ncase :=
+| NEnc (E: senv) (c: string) (glob: bool) (v e: pv)
+| NDec (E: senv) (c: string) (glob: bool) (d: pv) (e: option pv).
+"""
+
+ND_OK_FUN = """Definition is_too_few (e: exn) : bool := match e with XOther s => String.eqb s "too few items" | _ => false end.
+(* the global option describes the classes whose items reach no other NamedTuple *)
+Definition dom (E: senv) (c: string) (glob: bool) : bool :=
+  negb glob || match sfind E KNamed c with Some k => forallb (fun f => nt_free E f.(sf_ty)) k.(sc_fields) | None => false end.
+Definition ok (c: ncase) : bool :=
+  match c with
+  | NEnc E c g v e =>
+      dom E c g &&
+      match pk_nd E P v c, ref_enc_nd E P v c with
+      | Ok r, Ok r' => pv_same r e && pv_same r' e
+      | _, _ => false end
+  | NDec E c g d e =>
+      dom E c g &&
+      match uk_nd E P d c, ref_dec_nd_l E P d c, e with
+      | Ok r, Ok r', Some x => pv_same r x && pv_same r' x
+      | Exn _, Exn _, None => true
+      | _, _, _ => false end
+      && match ref_dec_nd E P d c, e with
+         | Ok r, Some x => pv_same r x
+         | Exn e', None => true
+         | Exn e', Some _ => is_too_few e'
+         | Ok _, None => false end
+  end.
+"""
+
+
+def nd_schema(sg: gen.SchemaGen, rng, flat: bool) -> T:
+    """a NamedTuple class with trailing defaults whose item types come from the Coq grammar
+    (flat: no NamedTuple below it, so that the global option describes the same behaviour)"""
+    def item():
+        for _ in range(20):
+            c = rng.random()
+            if c < 0.25:
+                ft = T(rng.choice(["int", "str", "bool", "float"]))
+            elif c < 0.4:
+                ft = T("tuplefix", [T(rng.choice(["int", "str", "bool"])) for _ in range(rng.randrange(1, 4))])
+            elif c < 0.5:
+                ft = sg.const_type()
+            elif c < 0.6 and not flat:
+                ft = sg.namedtuple_type(1)
+            else:
+                ft = sg.gen_type(rng.choice([0, 1, 1, 2]))
+            if not flat or not _reaches_nt(ft, sg.fam):
+                return ft
+        return T("int")
+    spec = gen.ClassSpec("nt", sg.fresh("N"))
+    for k2 in range(rng.randrange(1, 5)):
+        spec.fields.append(gen.FieldSpec(f"a{k2}", item()))
+    for f in reversed(spec.fields):
+        dv = sg.simple_default(f.ty) if rng.random() < 0.7 else None
+        if dv is None or (isinstance(dv[0], str) and dv[0].startswith("factory:")):
+            break
+        f.default, f.default_src = dv
+    sg.fam.classes.append(spec)
+    return T("nt", name=spec.name)
+
+
+def _reaches_nt(t: T, fam) -> bool:
+    seen = set()
+
+    def go(x):
+        for n in x.walk():
+            if n.kind == "nt":
+                return True
+            if n.kind in ("data", "td") and n.name not in seen:
+                seen.add(n.name)
+                if any(go(f.ty) for f in fam.get(n.name).fields):
+                    return True
+        return False
+    return go(t)
+
+
+def nd_inputs(w, names, rng, foreign: int):
+    """encoder output; every key removed; a surplus key; only the keys given; foreign positions; one nested list cut short;
+    inputs that are not dicts (membership / substring tests of the defaulted fields, TypeError otherwise)"""
+    out = [w]
+    if isinstance(w, dict):
+        out += [{k: v for k, v in w.items() if k != k0} for k0 in w]
+        out.append({**w, "zz_surplus": 1})
+        out.append(dict(reversed(list(w.items()))))
+        out.append({})
+    out += [corrupt(w, rng) for _ in range(foreign)] + null_variants(w, rng, 2) + truncations(w, 4)
+    out += [[], list(names), names[-1:], "".join(names), names[-1], "", rng.choice([None, 7, 2.5, True])]
+    return out
+
+
+def make_nd_cases(rng, n_schemas: int, foreign: int = 3):
+    from mashumaro.codecs.basic import BasicDecoder, BasicEncoder
+    from mashumaro.dialect import Dialect
+    cases = []
+    for si in range(n_schemas):
+        sg = gen.SchemaGen(rng, gen.GenOpts(depth=2, coq_only=True, named=True, literals=True))
+        sg.tag = f"nd{si}_"
+        glob = rng.random() < 0.4
+        t = nd_schema(sg, rng, flat=glob)
+        fam = sg.fam
+        ns = fam.build()
+        ty = gen.resolve(t, ns)
+        if glob:
+            dia = type("AsDictAll", (Dialect,), {"namedtuple_as_dict": True})
+        else:
+            dia = type("AsDictOne", (Dialect,), {"serialization_strategy": {ty: {"serialize": "as_dict", "deserialize": "as_dict"}}})
+        enc = BasicEncoder(ty, default_dialect=dia)
+        dec = BasicDecoder(ty, default_dialect=dia)
+        names = [f.name for f in fam.get(t.name).fields]
+        vg = gen.ValueGen(rng, fam)
+        for vi in range(2):
+            v = vg.value(t)
+            try:
+                w = enc.encode(v)
+            except Exception as e:
+                cases.append(dict(fam=fam, t=t, ns=ns, kind="enc", value=v, out=("exc", type(e).__name__), glob=glob))
+                continue
+            cases.append(dict(fam=fam, t=t, ns=ns, kind="enc", value=v, out=("ok", w), glob=glob))
+            for d in (nd_inputs(w, names, rng, foreign) if vi == 0 else [w, corrupt(w, rng)]):
+                d0 = copy.deepcopy(d)
+                try:
+                    out = ("ok", dec.decode(d))
+                except Exception as e:
+                    out = ("exc", type(e).__name__)
+                cases.append(dict(fam=fam, t=t, ns=ns, kind="dec", input=d0, out=out, glob=glob))
+    return cases
+
+
+def emit_nd(cases, shard=150):
+    files = []
+    for si in range(0, len(cases), shard):
+        chunk = cases[si:si + shard]
+        tb = Tables()
+        envs: dict[int, str] = {}
+        env_defs = []
+        lines = []
+        for c in chunk:
+            fam, t, ns = c["fam"], c["t"], c["ns"]
+            if id(fam) not in envs:
+                name = f"E_{len(envs)}"
+                envs[id(fam)] = name
+                env_defs.append(f"Definition {name} : senv := {coq_senv(fam, [x.name for x in fam.classes if x.kind in ('data', 'nt', 'td')])}.")
+            en = envs[id(fam)]
+            g = "true" if c["glob"] else "false"
+            if c["kind"] == "enc":
+                tb.add_value(c["value"], fam, ns)
+                e = coq_pv(c["out"][1]) if c["out"][0] == "ok" else '(VOther "impl-raised")'
+                lines.append(f"NEnc {en} {coq_str(t.name)} {g} {coq_pv(c['value'])} {e}")
+            else:
+                tb.add_input(c["input"], t, fam, ns)
+                e = f"(Some {coq_pv(c['out'][1])})" if c["out"][0] == "ok" else "None"
+                lines.append(f"NDec {en} {coq_str(t.name)} {g} {coq_pv(c['input'])} {e}")
+        txt = HEADER.format(extra=" TyNtDict") + ND_HEADER + tb.coq() + "\n" + "\n".join(env_defs) + "\n" + ND_OK_FUN
+        txt += "Definition cases : list ncase :=\n  [" + ";\n   ".join(lines) + "].\n"
+        txt += "Eval vm_compute in (bad_idx ok cases).\n"
+        files.append(txt)
+    return files
+
+
+def run_nd(ctx: vlib.Ctx, name: str, n_schemas: int, foreign: int = 3):
+    """(M) correspondence of TyNtDict.v (pk_nd / ref_enc_nd / uk_nd / ref_dec_nd) with BasicEncoder / BasicDecoder under a dialect
+    that selects the as_dict form (class-specific serialization strategy, or the global option on NamedTuple-free items)"""
+    cases = make_nd_cases(ctx.rng, n_schemas, foreign)
+    br = vlib.coq_make(["theories/TyNtDict.vo", "theories/CaseLib.vo", "theories/Wire.vo"])
+    if not br.ok:
+        return cases, None, "model does not build: " + (br.error or "")
+    files = emit_nd(cases)
+    res = vlib.coq_eval_many([(f"{name}_{i}", txt) for i, txt in enumerate(files)], timeout=CORR_TIMEOUT, jobs=8)
+    bad = []
+    for n, (ok, out) in enumerate(res):
+        if not ok:
+            return cases, None, out[-3000:]
+        idx = vlib.parse_nat_list(out)
+        if idx is None:
+            return cases, None, "unparsable coq output: " + out[-1500:]
+        bad.extend(n * 150 + i for i in idx)
+    return cases, bad, ""
+
+
+# ---------------------------------------------------------------------------
+# kernel K45a (TypedDict helper emission): translation vs the helpers the real generator produces
+# ---------------------------------------------------------------------------
+
+def k45a_validate(ctx: vlib.Ctx, side: str):
+    """side = 'pack' | 'unpack': random TypedDict classes (total / total=False, Required / NotRequired on single keys); the helper text is
+    captured at its exec and read back as a list of TLReq / TLOpt statements; Coq compares it with the translated loop."""
+    import builtins
+    import re
+    import mashumaro.core.meta.types.pack as _pack
+    import mashumaro.core.meta.types.unpack as _unpack
+    from mashumaro.codecs.basic import BasicDecoder, BasicEncoder
+    if not ctx.kernel_report.get("K45a", {}).get("ok"):
+        return
+    rng = ctx.rng
+    mod = _pack if side == "pack" else _unpack
+    marker = f"def __{side}_typed_dict_"
+    cases, info = [], []
+    for i in range(ctx.budget(40, 300)):
+        n = rng.randrange(0, 6)
+        total = rng.random() < 0.6
+        names = [f"k{j}" for j in range(n)]
+        marks = [rng.choice(["", "", "Required", "NotRequired"]) for _ in names]
+        src = "from typing import TypedDict, Required, NotRequired\nclass TD(TypedDict" + ("" if total else ", total=False") + "):\n"
+        src += "".join(f"    {nm}: " + (f"{mk}[int]" if mk else "int") + "\n" for nm, mk in zip(names, marks)) or "    pass\n"
+        ns = gen.build_module(src)
+        got = {"helper": None}
+
+        def rec(code, g=None, l=None):
+            if isinstance(code, str) and marker in code:
+                got["helper"] = code
+            return builtins.exec(code, g, l)
+        old = mod.__dict__.get("exec")
+        mod.exec = rec
+        try:
+            (BasicEncoder if side == "pack" else BasicDecoder)(ns["TD"])
+        except Exception as e:
+            ctx.not_shown("kernel K45a validation", f"{src}: {type(e).__name__}: {e}"[:300])
+            continue
+        finally:
+            if old is None:
+                del mod.exec
+            else:
+                mod.exec = old
+        if not got["helper"]:
+            ctx.not_shown("kernel K45a validation", f"no TypedDict helper compiled for {src}"[:300])
+            continue
+        lines = [x.strip() for x in got["helper"].splitlines()]
+        body, pend, okshape = [], None, ("d = {}" in lines and "return d" in lines)
+        for ln in lines:
+            m1 = re.match(r"key_value = value\.get\('(k\d+)', MISSING\)$", ln)
+            m2 = re.match(r"d\['(k\d+)'\] = ", ln)
+            if m1:
+                pend = m1.group(1)
+            elif ln == "if key_value is not MISSING:":
+                continue
+            elif m2:
+                if pend is None:
+                    body.append(f"TLReq {coq_str(m2.group(1))}")
+                elif pend == m2.group(1):
+                    body.append(f"TLOpt {coq_str(m2.group(1))}")
+                    pend = None
+                else:
+                    okshape = False
+        req = sorted(ns["TD"].__required_keys__)
+        opt = sorted(ns["TD"].__optional_keys__)
+        z = lambda xs: "[" + "; ".join(coq_str(x) for x in xs) + "]"
+        code = "[" + "; ".join(body) + "]" if okshape else '[TLReq "unrecognised helper"]'
+        cases.append(f"(({z(names)}, ({z(req)}, {z(opt)})), {code})")
+        info.append((names, req, opt, code))
+        ctx.count(("k45a", side, total, tuple(marks)))
+    defs = ("Definition line_eqb (a b: td_line) : bool := match a, b with TLReq x, TLReq y | TLOpt x, TLOpt y => String.eqb x y | _, _ => false end.\n"
+            "Fixpoint leqb (a b: list td_line) : bool := match a, b with [], [] => true | x :: r, y :: s => line_eqb x y && leqb r s | _, _ => false end.\n"
+            "Definition smem (l: list string) (n: string) : bool := existsb (String.eqb n) l.\n")
+    okf = f"fun c => match c with ((names, (req, opt)), code) => leqb (k45a_{side}_lines names (smem req) (smem opt)) code end"
+    bad, log = vlib.coq_bad_idx(f"k45a_{side}", "Core TyModel TdEmit", "From VerifGen Require Import K45a.", defs, cases, okf,
+                                "(list string * (list string * list string)) * list td_line", shard=400, timeout=CORR_TIMEOUT, needs=["gen/K45a.vo", "theories/TdEmit.vo"])
+    name = f"K45a-translation-vs-generated-{side}-helper"
+    if bad is None:
+        ctx.correspondence(name, len(cases), -1, log)
+        ctx.not_shown("translation validation K45a", log)
+    else:
+        ctx.correspondence(name, len(cases), len(bad), str([info[i] for i in bad[:4]])[:600])
+        if bad:
+            ctx.not_shown("translation validation K45a", str([info[i] for i in bad[:4]])[:600])
+
+
+def k45b_validate(ctx: vlib.Ctx):
+    """kernel K45b (expression returned by pack_named_tuple) vs the encoder source the real generator produces for random
+    NamedTuple classes of int fields (item packer = the identity, so the display is visible verbatim) in both forms"""
+    import builtins
+    import re
+    import mashumaro.core.meta.code.builder as _builder
+    from mashumaro.codecs.basic import BasicEncoder
+    from mashumaro.dialect import Dialect
+    if not ctx.kernel_report.get("K45b", {}).get("ok"):
+        return
+    rng = ctx.rng
+    cases, info = [], []
+    for i in range(ctx.budget(30, 200)):
+        n = rng.randrange(1, 6)
+        names = [f"f{j}" for j in range(n)]
+        src = "from typing import NamedTuple\nclass N(NamedTuple):\n" + "".join(f"    {nm}: int\n" for nm in names)
+        ns = gen.build_module(src)
+        as_dict = rng.random() < 0.5
+        dia = type("D", (Dialect,), {"namedtuple_as_dict": as_dict})
+        got = []
+
+        def rec(code, g=None, l=None):
+            if isinstance(code, str):
+                got.append(code)
+            return builtins.exec(code, g, l)
+        old = _builder.__dict__.get("exec")
+        _builder.exec = rec
+        try:
+            BasicEncoder(ns["N"], default_dialect=dia)
+        except Exception as e:
+            ctx.not_shown("kernel K45b validation", f"{src}: {type(e).__name__}: {e}"[:300])
+            continue
+        finally:
+            if old is None:
+                del _builder.exec
+            else:
+                _builder.exec = old
+        text = "\n".join(got)
+        md = re.search(r"\{((?:'f\d+': value\[\d+\](?:, )?)+)\}", text)
+        ml = re.search(r"\[((?:value\[\d+\](?:, )?)+)\]", text)
+        z = lambda xs: "[" + "; ".join(xs) + "]"
+        if md and not ml:
+            pairs = re.findall(r"'(f\d+)': value\[(\d+)\]", md.group(1))
+            code = "NPDict " + z(coq_str(k) for k, _ in pairs) + " " + z(f"IPos {int(j)}" for _, j in pairs)
+        elif ml and not md:
+            js = re.findall(r"value\[(\d+)\]", ml.group(1))
+            code = "NPList " + z(f"IPos {int(j)}" for j in js)
+        else:
+            code = "NPList []"       # unrecognised: will not match
+        cases.append(f"(({'true' if as_dict else 'false'}, {z(coq_str(x) for x in names)}), {code})")
+        info.append((as_dict, names, code))
+        ctx.count(("k45b", as_dict, n))
+    defs = ("Definition idx_eqb (a b: nt_idx) : bool := match a, b with IName x, IName y => String.eqb x y | IPos x, IPos y => Nat.eqb x y | _, _ => false end.\n"
+            "Fixpoint leqb {A} (e: A -> A -> bool) (a b: list A) : bool := match a, b with [], [] => true | x :: r, y :: s => e x y && leqb e r s | _, _ => false end.\n"
+            "Definition pcode_eqb (a b: nt_pack_code) : bool := match a, b with NPList x, NPList y => leqb idx_eqb x y "
+            "| NPDict k x, NPDict k' y => leqb String.eqb k k' && leqb idx_eqb x y | _, _ => false end.\n")
+    okf = "fun c => match c with ((ad, names), code) => pcode_eqb (k45b_pack ad names) code end"
+    bad, log = vlib.coq_bad_idx("k45b_pack", "Core TyModel NtEmit", "From VerifGen Require Import K45b.", defs, cases, okf,
+                                "(bool * list string) * nt_pack_code", shard=400, timeout=CORR_TIMEOUT, needs=["gen/K45b.vo", "theories/NtEmit.vo"])
+    name = "K45b-translation-vs-generated-source"
+    if bad is None:
+        ctx.correspondence(name, len(cases), -1, log)
+        ctx.not_shown("translation validation K45b", log)
+    else:
+        ctx.correspondence(name, len(cases), len(bad), str([info[i] for i in bad[:4]])[:600])
+        if bad:
+            ctx.not_shown("translation validation K45b", str([info[i] for i in bad[:4]])[:600])
+
+
+# ---------------------------------------------------------------------------
+# generic dataclasses: fields annotated by type variables (coq/theories/TyTypeVar.v: tv_sty), unspecialised and specialised
+# ---------------------------------------------------------------------------
+
+TV_DECL = {"T": "TypeVar('T')", "B": "TypeVar('B', bound=int)", "S": "TypeVar('S', bound=str)", "L": "TypeVar('L', bound=List[int])"}
+# TyTypeVar.tv_sty; L: a bound whose packer is not the identity (value.copy()), so an elided None test is visible (fix fc913d1)
+TV_UNSPEC = {"T": ("any",), "B": ("opt", ("int",)), "S": ("opt", ("str",)), "L": ("opt", ("list", ("int",)))}
+TV_ARGS = {"T": [("int",), ("opt", ("int",)), ("str",), ("list", ("int",)), ("opt", ("list", ("str",))), ("any",)],
+           "B": [("int",), ("bool",)], "S": [("str",)], "L": [("list", ("int",))]}
+
+
+def tv_ann(t) -> str:
+    k = t[0]
+    return {"any": "Any", "int": "int", "str": "str", "bool": "bool"}.get(k) or (
+        t[1] if k == "tv" else f"Optional[{tv_ann(t[1])}]" if k == "opt" else f"List[{tv_ann(t[1])}]" if k == "list" else f"Dict[str, {tv_ann(t[1])}]")
+
+
+def tv_subst(t, sub):
+    k = t[0]
+    if k == "tv":
+        return sub[t[1]]
+    if k in ("opt", "list", "dict"):
+        return (k, tv_subst(t[1], sub))
+    return t
+
+
+def tv_coq(t) -> str:
+    k = t[0]
+    return {"any": "SAny", "int": "SIntT", "str": "SStrT", "bool": "SBoolT"}.get(k) or (
+        f"(SOpt {tv_coq(t[1])})" if k == "opt" else f"(SList {tv_coq(t[1])})" if k == "list" else f"(SDict SStrT {tv_coq(t[1])})")
+
+
+def tv_value(t, rng, d=0):
+    k = t[0]
+    if k == "any":
+        return rng.choice([None, 0, -3, "s", True, 2.5, [1, "a"], {"k": None}])
+    if k == "int":
+        return rng.choice([0, 1, -7, 2 ** 40])
+    if k == "str":
+        return rng.choice(["", "x", "12", "None"])
+    if k == "bool":
+        return rng.random() < 0.5
+    if k == "opt":
+        return None if rng.random() < 0.35 else tv_value(t[1], rng, d + 1)
+    if k == "list":
+        return [tv_value(t[1], rng, d + 1) for _ in range(rng.randrange(0, 3))]
+    return {f"k{j}": tv_value(t[1], rng, d + 1) for j in range(rng.randrange(0, 3))}
+
+
+def make_tv_cases(rng, n_schemas: int, foreign: int = 2):
+    from mashumaro.codecs.basic import BasicDecoder, BasicEncoder
+    cases = []
+    pool = [("tv", "T"), ("tv", "B"), ("tv", "S"), ("tv", "L"), ("tv", "L"), ("list", ("tv", "B")), ("list", ("tv", "T")), ("opt", ("tv", "T")), ("dict", ("tv", "B")),
+            ("opt", ("list", ("tv", "S"))), ("int",), ("opt", ("str",))]
+    for si in range(n_schemas):
+        fields = []
+        for j in range(rng.randrange(1, 5)):
+            t = rng.choice(pool)
+            dflt = rng.choice([None, None, "None"]) if t[0] != "int" else rng.choice([None, "0"])
+            fields.append([f"f{j}", t, dflt])
+        fields.sort(key=lambda f: f[2] is not None)        # defaults last
+        used = sorted({n[1] for _, t, _ in fields for n in _tv_walk(t)})
+        src = ("from dataclasses import dataclass\nfrom typing import Any, Dict, Generic, List, Optional, TypeVar\n"
+               + "".join(f"{v} = {TV_DECL[v]}\n" for v in used)
+               + "@dataclass\nclass G" + (f"(Generic[{', '.join(used)}])" if used else "") + ":\n"
+               + "".join(f"    {nm}: {tv_ann(t)}" + (f" = {d}" if d is not None else "") + "\n" for nm, t, d in fields))
+        ns = gen.build_module(src)
+        specialise = bool(used) and rng.random() < 0.5
+        sub = {v: (rng.choice(TV_ARGS[v]) if specialise else TV_UNSPEC[v]) for v in used}
+        ty = eval("G[" + ", ".join(tv_ann(sub[v]) for v in used) + "]", dict(ns)) if specialise else ns["G"]
+        ftypes = [tv_subst(t, sub) for _, t, _ in fields]
+        env = ("[ {| sc_kind := KData; sc_name := \"G\"; sc_fields := [" + "; ".join(
+            f"{{| sf_name := {coq_str(nm)}; sf_ty := {tv_coq(ft)}; sf_default := {'None' if d is None else '(Some VNone)' if d == 'None' else '(Some (VInt 0))'}; sf_opt := false |}}"
+            for (nm, _, d), ft in zip(fields, ftypes)) + "] |} ]")
+        try:
+            enc, dec = BasicEncoder(ty), BasicDecoder(ty)
+        except Exception as e:
+            cases.append(dict(env=env, kind="build", src=src, spec=specialise, out=("exc", f"{type(e).__name__}: {e}"[:200])))
+            continue
+        for vi in range(2):
+            v = ns["G"](*[tv_value(ft, rng) for ft in ftypes])
+            try:
+                w = enc.encode(v)
+            except Exception as e:
+                cases.append(dict(env=env, kind="enc", value=v, src=src, spec=specialise, out=("exc", type(e).__name__)))
+                continue
+            cases.append(dict(env=env, kind="enc", value=v, src=src, spec=specialise, out=("ok", w)))
+            inputs = [w] + [{k: x for k, x in w.items() if k != k0} for k0 in w] + [corrupt(w, rng) for _ in range(foreign)] + null_variants(w, rng, 3)
+            for d in inputs:
+                d0 = copy.deepcopy(d)
+                try:
+                    out = ("ok", dec.decode(d))
+                except Exception as e:
+                    out = ("exc", type(e).__name__)
+                cases.append(dict(env=env, kind="dec", input=d0, src=src, spec=specialise, out=out))
+    return cases
+
+
+def _tv_walk(t):
+    if t[0] == "tv":
+        yield t
+    elif t[0] in ("opt", "list", "dict"):
+        yield from _tv_walk(t[1])
+
+
+def emit_tv(cases, shard=150):
+    files = []
+    dummy_fam = gen.Family()
+    for si in range(0, len(cases), shard):
+        chunk = cases[si:si + shard]
+        tb = Tables()
+        lines = []
+        for c in chunk:
+            if c["kind"] == "enc":
+                e = coq_pv(c["out"][1]) if c["out"][0] == "ok" else '(VOther "impl-raised")'
+                lines.append(f"CEnc {c['env']} (SData \"G\") {coq_pv(c['value'])} {e}")
+            elif c["kind"] == "dec":
+                tb.add_input(c["input"], T("int"), dummy_fam, {})
+                e = f"(Some {coq_pv(c['out'][1])})" if c["out"][0] == "ok" else "None"
+                lines.append(f"CDec {c['env']} (SData \"G\") {coq_pv(c['input'])} {e}")
+            else:
+                lines.append(f"CEnc [] SIntT VNone (VOther {coq_str('codec does not build')})")      # never agrees
+        txt = HEADER.format(extra="") + tb.coq() + "\n" + OK_FUN
+        txt += "Definition cases : list tcase :=\n  [" + ";\n   ".join(lines) + "].\n"
+        txt += "Eval vm_compute in (bad_idx ok cases).\n"
+        files.append(txt)
+    return files
+
+
+def run_tv(ctx: vlib.Ctx, name: str, n_schemas: int, foreign: int = 2):
+    """(M) correspondence for dataclasses whose fields are annotated by type variables (unspecialised: TyTypeVar.tv_sty;
+    specialised: the argument, incl. Optional[...] arguments -- fix 4da7e9e), against BasicEncoder / BasicDecoder of G / G[...]"""
+    cases = make_tv_cases(ctx.rng, n_schemas, foreign)
+    br = vlib.coq_make(["theories/TyModel.vo", "theories/CaseLib.vo", "theories/Wire.vo"])
+    if not br.ok:
+        return cases, None, "model does not build: " + (br.error or "")
+    res = vlib.coq_eval_many([(f"{name}_{i}", txt) for i, txt in enumerate(emit_tv(cases))], timeout=CORR_TIMEOUT, jobs=8)
+    bad = []
+    for n, (ok, out) in enumerate(res):
+        if not ok:
+            return cases, None, out[-3000:]
+        idx = vlib.parse_nat_list(out)
+        if idx is None:
+            return cases, None, "unparsable coq output: " + out[-1500:]
+        bad.extend(n * 150 + i for i in idx)
     return cases, bad, ""
